@@ -528,6 +528,12 @@ def c03(ck):
         services.append(Service([(n, "interface %s\n# %d\nmethod Run() -> ()\n" % (n, i), True) for i, n in enumerate(names)],
                                 vendor=rng.choice(["v", "", "vendör \"q\""]), product=rng.choice(["p", "prod\\uct"]),
                                 version=rng.choice(["1", "2.0-β"]), url=rng.choice(["http://x", ""])))
+    # the same name registered more than once, adjacent and with other registrations in between: the last registration
+    # serves the calls, and the name is still advertised once
+    for pat in ([0, 1, 0], [0, 0], [0, 0, 1], [0, 1, 0, 1], [0, 1, 2, 0], [1, 0, 2, 0, 1, 0]):
+        pool = rng.sample(NAME_POOL, 3)
+        services.append(Service([(pool[x], "interface %s\n# registration %d\nmethod Run() -> ()\n" % (pool[x], i), True)
+                                 for i, x in enumerate(pat)]))
     lines, meta = [], {}
     n = 0
     for svc in services:
